@@ -123,7 +123,8 @@ def check(run):
     r = gen.rng_for(run.seed, "c14")
     for i in range(6000 if thorough else 1200):
         s = strgen.build(r, "R%d" % i, ["EnumMessage"], n=r.choice([1, 2, 3, 4, 6, 9]), allow_default=False, allow_prefix=True, allow_default_with=False,
-                         generics_pool=(None, None, "T", "a", "aT", "N", "TU"))
+                         generics_pool=(None, None, "T", "a", "aT", "N", "TU", "Tw", "aTw", "I", "aI", "Tdef", "TwU"))
+        gen.add_noise(r, s, skip=("message", "docs", "serialize", "serialize_all", "prefix"))
         specs.append(decorate(r, s))
     units = [shards.Unit("u_" + s.name.lower(), glue(s), meta={"enum_src": s.render()}, sig=s.signature()) for s in specs]
     run.rule = RULE
